@@ -1,3 +1,4 @@
+import Teleport.Model.Lifecycle
 /-
 Model/Auth — the authentication gate of one accepted connection, at the granularity of the atomic
 stages of the code:
@@ -20,12 +21,30 @@ code: it may call `RecvOnce` any number of times (`Ev.recvOnce`) and return any 
 (`Ev.ckReturn`); a *strict* checker (`St.strict`) returns an OK status only if its `RecvOnce` calls
 returned exactly one OK.
 
+The checker function is handed the session (`auth.Session`): besides `RecvOnce` it may rename it
+(`Ev.setId` = `session.SetID`: a session that is being prepared ENTERS THE HUB under the new id and
+leaves it under the old one; when the new id belongs to another live session of the peer, that
+session is replaced and closed — `SessionHub.set`) and read the peer (`Ev.peek`), any number of
+times, before and after `RecvOnce`, whatever verdict follows. The hub is part of the state, keyed by
+id (`Lifecycle.AL`, the association list of Model/Lifecycle): owner 0 = this connection, owner
+`o + 1` = the other live session `o` of the same peer. `sessHub.delete(s.ID(), s)` of `closeLocked`
+/ `readDisconnected` / the listener's failed compare-and-swap removes the entry under the CURRENT
+id if it maps to this connection (`AL.delIf`).
+
+Assumption (scope): while the accept hooks run nobody else closes the session (it is reachable
+through the hub once the checker renamed it; closing a session whose hooks still run is covered by
+the lifecycle model of C07, `hookClose`): `Ev.appClose` needs `authPassed`.
+
 `step : St → Ev → Option St` is executable; `Reach` is its reflexive-transitive closure.  The
 deterministic scheduler `runCase` (used by the driver and compared with the real code) only ever
 applies `step`, so every state it visits is `Reach`able (`Lemmas/Auth.run_reach`).
 -/
 namespace Teleport
 namespace Auth
+open Lifecycle (AL)
+
+/-- the peer's session hub: id ↦ owner (0 = this connection, `o + 1` = other live session `o`). -/
+abbrev Hub := AL Nat
 
 /-- message type classes the gate and the read loop distinguish (`message.go` Type*). -/
 inductive FKind | authCall | call | push | reply | authReply | other
@@ -114,7 +133,20 @@ structure St where
   recvLog      : List RecvRes := []
   /-- the accept-hook chain returned OK -/
   authPassed   : Bool := false
-  inHub        : Bool := false
+  /-- `socket.ID()`; 0 = the default id (the remote address) -/
+  sid          : Nat := 0
+  /-- every id the connection has had, oldest first -/
+  ids          : List Nat := [0]
+  /-- the peer's session hub -/
+  hub          : Hub := []
+  /-- other sessions of the peer closed by this connection's `hub.set` (`oldSess.Close()`) -/
+  kicked       : List Nat := []
+  /-- session operations (`SetID`, reads) the checker function has performed -/
+  nops         : Nat := 0
+  /-- the checker function called `SetID` with an id different from the current one -/
+  renamed      : Bool := false
+  /-- what the checker's reads returned: `GetSession(current id)` is this session?, `CountSession()` -/
+  peeks        : List (Bool × Nat) := []
   sockClosed   : Bool := false
   /-- everything the client has sent so far, in order -/
   arrived      : List Item := []
@@ -142,6 +174,21 @@ structure St where
   out          : List OutF := []
   deriving Repr
 
+/-- some hub entry — under whatever id — refers to this connection (`GetSession` / `RangeSession` /
+    `CountSession` would show it). -/
+def St.inHub (s : St) : Bool := s.hub.any fun kv => kv.2 == 0
+
+/-- `SessionHub.set(sess)`: LoadOrStore + Store under the current id; a different session found
+    there is closed (`oldSess.Close()`; its own `delete(id, oldSess)` finds this connection and
+    leaves the entry alone). -/
+def hubSet (s : St) : St :=
+  match s.hub.get s.sid with
+  | some (o + 1) => { s with hub := s.hub.put s.sid 0, kicked := s.kicked ++ [o] }
+  | _ => { s with hub := s.hub.put s.sid 0 }
+
+/-- `sessHub.delete(s.ID(), s)`. -/
+def hubDel (s : St) : St := { s with hub := s.hub.delIf s.sid 0 }
+
 /-- all per-message hook stage executions. -/
 def St.messageHookCount (s : St) : Nat := s.hookCount + s.prhCount
 
@@ -149,6 +196,8 @@ inductive Ev
   | arrive (i : Item)            -- environment: one more unit of client traffic has fully arrived
   | cut                          -- environment: client closes / connection is cut
   | recvOnce (timeout : Bool)    -- checker calls `RecvOnce`
+  | setId (v : Nat)              -- checker calls `sess.SetID(v)`
+  | peek                         -- checker reads the peer / the session (`Peer().GetSession`, `CountSession`, addresses, `Swap`)
   | ckReturn (v : Verdict)       -- checker returns
   | sendReply (wcode : Int)      -- `PreSend(AUTH_REPLY)`; `wcode` = 0 or the write failure code
   | branch                       -- `if stat := postAccept(sess); !stat.OK()`
@@ -209,6 +258,22 @@ def evRecvOnce (s : St) (timeout : Bool) : Option St :=
     some { s with called := true, exch := s.exch + 1, pending := r, preRead := s.preRead ++ [.frame f],
                   recvLog := s.recvLog ++ [recvCheck f] }
 
+/-- `session.SetID(newID)` called by the checker function: same id: nothing; else `socket.SetID`,
+    and for a session in Preparing / Ok `hub.set(s)` then `hub.delete(oldID, s)` (the second status
+    check cannot fire: nobody closes the session while its hooks run). -/
+def evSetId (s : St) (v : Nat) : Option St :=
+  if s.acc != .checker then none else
+  if v == s.sid then some { s with nops := s.nops + 1 } else
+  let s1 : St := { s with sid := v, ids := s.ids ++ [v], nops := s.nops + 1, renamed := true }
+  if s.status == .preparing || s.status == .ok then
+    let s2 := hubSet s1
+    some { s2 with hub := s2.hub.delIf s.sid 0 }
+  else some s1
+
+def evPeek (s : St) : Option St :=
+  if s.acc != .checker then none else
+  some { s with nops := s.nops + 1, peeks := s.peeks ++ [(s.hub.get s.sid == some 0, s.hub.length)] }
+
 def evCkReturn (s : St) (v : Verdict) : Option St :=
   if s.acc != .checker then none else
   if s.strict && verdictCode v == 0 && s.recvLog != [.ok] then none else
@@ -230,25 +295,25 @@ def evBranch (s : St) : Option St :=
   | .decided st =>
     if st != 0 then
       if s.closer.isSome then none else some { startClose s with acc := .rejClosing st }
-    else if s.lis then some { s with authPassed := true, inHub := true, acc := .lisHub }
+    else if s.lis then some (hubSet { s with authPassed := true, acc := .lisHub })
     else some { s with authPassed := true, status := .ok, acc := .okSet }
   | _ => none
 
 def evAccStep (s : St) : Option St :=
   match s.acc with
   | .okSet => some { s with rd := some .top, acc := .okSpawned }
-  | .okSpawned => some { s with inHub := true, acc := .done 0 }
+  | .okSpawned => some (hubSet { s with acc := .done 0 })
   | .lisHub =>
     -- `if !sess.tryChangeStatus(statusOk, statusPreparing) { p.sessHub.delete(sess.ID(), sess); return }`
     if s.status = .preparing then some { s with status := .ok, acc := .lisSet }
-    else some { s with inHub := false, acc := .done 0 }
+    else some (hubDel { s with acc := .done 0 })
   | .lisSet => some { s with rd := some .top, acc := .done 0 }
   | .rejClosing st => if s.closer.isSome then none else some { s with acc := .done st }
   | _ => none
 
 def evAppClose (s : St) : Option St :=
   if s.closer.isSome then none else
-  if s.inHub || s.acc == .done 0 then some (startClose s) else none
+  if s.authPassed && (s.inHub || s.acc == .done 0) then some (startClose s) else none
 
 def evGoClose (s : St) : Option St :=
   if s.closer.isSome || s.wantClose == 0 then none else
@@ -257,7 +322,7 @@ def evGoClose (s : St) : Option St :=
 def evCloseStep (s : St) : Option St :=
   match s.closer with
   | none => none
-  | some .hubdel => some { s with inHub := false, closer := some .notify }
+  | some .hubdel => some (hubDel { s with closer := some .notify })
   | some .notify => some { s with closer := some .waitCtx }
   | some .waitCtx => if s.hs.isEmpty then some { s with closer := some .setClosed } else none
   | some .setClosed => some { s with status := .activeClosed, closer := some .sockClose }
@@ -292,7 +357,7 @@ def evRdDisc (s : St) : Option St :=
     | .passiveClosed | .activeClosed | .passiveClosing => some { s with rd := some .exited }
     | .activeClosing => some { s with rd := some (.dHub true) }
     | _ => some { s with status := .passiveClosing, rd := some (.dHub false) }
-  | some (.dHub a) => some { s with inHub := false, rd := some (.dWait a) }
+  | some (.dHub a) => some (hubDel { s with rd := some (.dWait a) })
   | some (.dWait a) =>
     if s.hs.isEmpty then some { s with rd := some (if a then .exited else .dSock) } else none
   | some .dSock => some { s with sockClosed := true, rd := some .dSet }
@@ -334,6 +399,8 @@ def step (s : St) : Ev → Option St
       some { s with arrived := s.arrived ++ [i], pending := s.pending ++ [i] }
   | .cut => some { s with cut := true }
   | .recvOnce t => evRecvOnce s t
+  | .setId v => evSetId s v
+  | .peek => evPeek s
   | .ckReturn v => evCkReturn s v
   | .sendReply w => evSendReply s w
   | .branch => evBranch s
@@ -351,17 +418,36 @@ inductive Reach (s0 : St) : St → Prop
   | refl : Reach s0 s0
   | step {s t : St} (e : Ev) : Reach s0 s → step s e = some t → Reach s0 t
 
-/-- a freshly accepted connection (`newSession`): nothing has arrived, nothing has run. -/
-def init (lis strict : Bool) : St := { lis := lis, strict := strict }
+/-- the hub of a peer whose other live sessions `o, o + 1, …` are listed under the given ids
+    (a later session with the same id has taken the place of the earlier one). -/
+def hubOf : List Nat → Nat → Hub → Hub
+  | [], _, h => h
+  | id :: r, o, h => hubOf r (o + 1) (h.put id (o + 1))
+
+/-- a freshly accepted connection on a peer whose other live sessions `0, 1, …` have the ids
+    `others` (this connection's default id is 0). -/
+def init (lis strict : Bool) (others : List Nat := []) : St :=
+  { lis := lis, strict := strict, hub := hubOf others 0 [] }
 
 /-! ## deterministic scheduler (what the driver runs and the harness compares with the real code) -/
 
 /-- scripted checker function of the harness: calls `RecvOnce` `nrecv` times; `propagate`: returns
     the first non-OK `RecvOnce` status if there is one; otherwise its verdict. -/
+inductive CkOp | setId (v : Nat) | peek
+  deriving DecidableEq, Repr
+
+def CkOp.ev : CkOp → Ev
+  | .setId v => .setId v
+  | .peek => .peek
+
+/-- `pre`: session operations before the first `RecvOnce`; `post`: after the last one (whatever the
+    `RecvOnce` calls returned), before the verdict. -/
 structure Script where
   nrecv     : Nat := 1
   propagate : Bool := true
   verdict   : Verdict := .accept
+  pre       : List CkOp := []
+  post      : List CkOp := []
   deriving Repr
 
 def Script.result (k : Script) (log : List RecvRes) : Verdict :=
@@ -380,6 +466,8 @@ inductive EndKind | close | silent | brk
 
 structure Case where
   lis    : Bool := false
+  /-- ids of the other live sessions of the peer -/
+  others : List Nat := []
   script : Script := {}
   items  : List Item := []
   /-- client ends (per `fin`) right after writing, without waiting for anything -/
@@ -398,7 +486,14 @@ def firstEnabled (s : St) : List Ev → Option (Ev × St)
 /-- first enabled event in a fixed priority order: accept thread, handlers, closers, reader. -/
 def pickEv (k : Script) (brk : Bool) (s : St) : Option (Ev × St) :=
   let accEv : Ev := match s.acc with
-    | .checker => if s.recvLog.length < k.nrecv then .recvOnce false else .ckReturn (k.result s.recvLog)
+    | .checker =>
+      match k.pre[s.nops]? with
+      | some o => o.ev
+      | none =>
+        if s.recvLog.length < k.nrecv then .recvOnce false else
+        match k.post[s.nops - k.pre.length]? with
+        | some o => o.ev
+        | none => .ckReturn (k.result s.recvLog)
     | .reply _ => .sendReply (if brk then 104 else 0)
     | .decided _ => .branch
     | _ => .accStep
@@ -426,7 +521,8 @@ def applyEvs (s : St) : List Ev → St
     | some t => applyEvs t r
     | none => applyEvs s r
 
-def fuelOf (c : Case) : Nat := 64 + 16 * c.items.length + 4 * c.script.nrecv
+def fuelOf (c : Case) : Nat :=
+  64 + 16 * c.items.length + 4 * c.script.nrecv + 2 * (c.script.pre.length + c.script.post.length)
 
 /-- all the client's traffic is written first (arrival time does not matter, see
     `C16_no_handler_before_auth`), the server runs to quiescence, then the client's end-of-traffic
@@ -434,7 +530,7 @@ def fuelOf (c : Case) : Nat := 64 + 16 * c.items.length + 4 * c.script.nrecv
     again; a `silent` client is woken a second time (read-loop deadline after the auth deadline). -/
 def runCase (c : Case) : St :=
   let brk := c.fin == .brk
-  let s0 := applyEvs (init c.lis (c.script.propagate && c.script.nrecv != 0)) (c.items.map .arrive)
+  let s0 := applyEvs (init c.lis (c.script.propagate && c.script.nrecv != 0) c.others) (c.items.map .arrive)
   let s0 := if c.early && c.fin != .silent then applyEvs s0 [.cut] else s0
   let s1 := runQ c.script brk (fuelOf c) s0
   let wake (s : St) : St :=
